@@ -548,6 +548,18 @@ class Builder:
             self.dangling = f
             self._body(s.orelse, frame)
             self.dangling = self.dangling + sc.data['breaks']
+        elif isinstance(s, ast.For) and self._literal_iter(s) is not None:
+            # `for x in (a, b):` - the body runs once per element, with the
+            # target bound to it
+            for el in self._literal_iter(s):
+                if not self.dangling:
+                    break
+                asg = ast.Assign(targets=[s.target], value=el)
+                ast.copy_location(asg, s)
+                asg.end_lineno = getattr(s, 'end_lineno', None)
+                self._expr(el, frame)
+                self._emit('stmt', asg, frame)
+                self._body(s.body, frame)
         elif isinstance(s, ast.For) and \
                 self._const_trips(s, frame) is not None:
             # `for _ in range(<known small constant>)`: the body runs exactly
@@ -1140,6 +1152,29 @@ class Builder:
                           ast.JoinedStr, ast.Compare, ast.BinOp)):
             return True
         return False
+
+    def _literal_iter(self, s: ast.For):
+        """elements of `for x in (a, b, ...)` over a tuple / list display of
+        at most 4 names / attributes / constants, the body neither breaking
+        nor continuing and not re-binding what the elements name"""
+        it = s.iter
+        if s.orelse or not isinstance(it, (ast.Tuple, ast.List)) or \
+                not (1 <= len(it.elts) <= 4):
+            return None
+        if not isinstance(s.target, ast.Name):
+            return None
+
+        def simple(x):
+            if isinstance(x, (ast.Name, ast.Constant)):
+                return True
+            return isinstance(x, ast.Attribute) and simple(x.value)
+        if not all(simple(x) for x in it.elts):
+            return None
+        for st in s.body:
+            for x in ast.walk(st):
+                if isinstance(x, (ast.Break, ast.Continue)):
+                    return None
+        return list(it.elts)
 
     def _const_trips(self, s: ast.For, frame):
         """number of iterations of `for x in range(N)` when N is a literal
